@@ -74,6 +74,91 @@ def corruptions(rng, doc, fmt, n):
     return out
 
 
+
+def cycle_requests(rng, doc, fmt, pk, n):
+    """documents that ask for a containment cycle: a containment feature of some object is made to name the root or another
+    ancestor (XMI: as a reference attribute; JSON: as a `$ref` inside the containment value).  The load has to end —
+    with an exception or with a model — and must not hang."""
+    import json
+    from lxml import etree
+    classes = {c.name: c for c in pk.eAllContents() if hasattr(c, 'eStructuralFeatures')}
+
+    def conts(c):
+        return [f for f in c.eAllStructuralFeatures() if f.is_reference and f.containment]
+    out = []
+    if fmt == 'xmi':
+        for _ in range(n):
+            root = etree.fromstring(doc)
+            tops = [root] if not root.tag.endswith('}XMI') else [c for c in root if isinstance(c.tag, str)]
+            cand = []      # (element, class, ancestor paths)
+
+            def walk(e, cls, path, anc):
+                cand.append((e, cls, anc + [path]))
+                counts = {}
+                for ch in e:
+                    if not isinstance(ch.tag, str):
+                        continue
+                    f = next((g for g in conts(cls) if g.name == ch.tag), None)
+                    if f is None:
+                        continue
+                    i = counts.get(f.name, 0); counts[f.name] = i + 1
+                    t = ch.get('{http://www.w3.org/2001/XMLSchema-instance}type')
+                    ccls = classes.get(t.split(':')[-1]) if t else f.eType
+                    if ccls is None:
+                        continue
+                    seg = f'/@{f.name}.{i}' if f.many else f'/@{f.name}'
+                    walk(ch, ccls, (path if path != '/' else '/') + seg if path != '/' else '/' + seg, anc + [path])
+            for k, t in enumerate(tops):
+                cls = classes.get(etree.QName(t.tag).localname)
+                if cls is not None:
+                    walk(t, cls, '/' if len(tops) == 1 else f'/{k}', [])
+            cand = [(e, cls, anc) for (e, cls, anc) in cand if conts(cls)]
+            if not cand:
+                break
+            e, cls, anc = rng.choice(cand)
+            f = rng.choice(conts(cls))
+            e.attrib[f.name] = rng.choice(anc)
+            out.append(etree.tostring(root, xml_declaration=True, encoding='UTF-8'))
+    else:
+        for _ in range(n):
+            d = json.loads(doc.decode('utf-8'))
+            tops = d if isinstance(d, list) else [d]
+            cand = []
+
+            def cls_of(o, declared):
+                u = o.get('eClass')
+                return classes.get(u.split('#//')[-1]) if u else declared
+
+            def walk(o, cls, path, anc):
+                if cls is None or '$ref' in o:
+                    return
+                cand.append((o, cls, anc + [path]))
+                for f in conts(cls):
+                    v = o.get(f.name)
+                    if isinstance(v, list):
+                        for i, ch in enumerate(v):
+                            if isinstance(ch, dict):
+                                walk(ch, cls_of(ch, f.eType), ('/' if path == '/' else path) + f'/@{f.name}.{i}', anc + [path])
+                    elif isinstance(v, dict):
+                        walk(v, cls_of(v, f.eType), ('/' if path == '/' else path) + f'/@{f.name}', anc + [path])
+            for k, t in enumerate(tops):
+                walk(t, cls_of(t, None), '/' if len(tops) == 1 else f'/{k}', [])
+            cand = [(o, cls, anc) for (o, cls, anc) in cand if conts(cls)]
+            if not cand:
+                break
+            o, cls, anc = rng.choice(cand)
+            f = rng.choice(conts(cls))
+            ref = {'$ref': rng.choice(anc)}
+            if f.many:
+                o.setdefault(f.name, [])
+                if isinstance(o[f.name], list):
+                    o[f.name].append(ref)
+            else:
+                o[f.name] = ref
+            out.append(json.dumps(d).encode('utf-8'))
+    return out
+
+
 def snapshot(rset):
     from pyecore.resources import global_registry
     return (sorted((k, id(v)) for k, v in rset.resources.items()),
@@ -131,6 +216,123 @@ def attempt(ctx, data, pk, tmp, fmt, label, h):
         ctx.violate({'clause': 'not-idempotent', 'format': fmt}, f'asking twice for the same URI returned two resources', rep)
 
 
+
+def cross_case(ctx, h, tmp, fmt):
+    """a previously loaded resource is not changed by a load that fails: document B refers into the already loaded resource
+    A through references that have an opposite (single and many), and is corrupted *after* those references"""
+    from pyecore import ecore as E
+    from pyecore.resources import ResourceSet, URI
+    from pyecore.resources.json import JsonResource
+    rng = common.sub_rng(ctx.seed, 'C18', 'cross', h, fmt)
+    pk = E.EPackage('cx', f'http://verif/cx{h}{fmt}', 'cx')
+    N = E.EClass('N')
+    pk.eClassifiers.append(N)
+    N.eStructuralFeatures.append(E.EAttribute('name', E.EString))
+    N.eStructuralFeatures.append(E.EAttribute('num', E.EInt))
+    N.eStructuralFeatures.append(E.EReference('kids', N, upper=-1, containment=True))
+    friend = E.EReference('friend', N)
+    friend_of = E.EReference('friendOf', N, eOpposite=friend)
+    pals = E.EReference('pals', N, upper=-1)
+    pals_of = E.EReference('palsOf', N, upper=-1, eOpposite=pals)
+    boss = E.EReference('boss', N)
+    staff = E.EReference('staff', N, upper=-1, eOpposite=boss)
+    N.eStructuralFeatures.extend([friend, friend_of, pals, pals_of, boss, staff])
+    M = E.EClass('M')
+    pk.eClassifiers.append(M)
+    N.eStructuralFeatures.append(E.EReference('wrong', M))
+
+    def rs():
+        r = ResourceSet()
+        r.resource_factory['json'] = lambda uri: JsonResource(uri)
+        r.metamodel_registry[pk.nsURI] = pk
+        return r
+    d = os.path.join(tmp, f'cross{h}{fmt}')
+    os.makedirs(d, exist_ok=True)
+    pa, pb = os.path.join(d, f'a.{fmt}'), os.path.join(d, f'b.{fmt}')
+    w = rs()
+    ra, rb = w.create_resource(URI(pa)), w.create_resource(URI(pb))
+    a0 = N(name='a0'); a1 = N(name='a1'); a0.kids.append(a1); ra.append(a0)
+    b0 = N(name='b0'); b1 = N(name='b1'); b0.kids.append(b1); rb.append(b0)
+    try:
+        ra.save()          # A's file is written before B links to it: it does not mention B
+    except Exception:
+        ctx.count('cross/setup-raised'); return
+    kinds = rng.sample(['friend', 'pals', 'boss', 'staff', 'friendOf'], rng.randint(1, 3))
+    # the object whose references the loader resolves first carries the cross references; the failure sits on the other one
+    first, second = (b0, b1) if fmt == 'xmi' else (b1, b0)
+    for k in kinds:
+        src, tgt = first, rng.choice([a0, a1])
+        if N.findEStructuralFeature(k).many:
+            src.eGet(k).append(tgt)
+        else:
+            src.eSet(k, tgt)
+    b1.eSet('num', 5)
+    try:
+        rb.save()
+    except Exception:
+        ctx.count('cross/setup-raised'); return
+    # A as it is on disk now (B's ends are in B's file only: A's file knows nothing of them)
+    good = open(pb, 'rb').read().decode('utf-8')
+    # corrupt late: a reference of the object that is resolved second names an object of the wrong class (or nothing)
+    wrong = rng.choice(['/', '//@kids.99'])
+    if fmt == 'xmi':
+        bad = good.replace('num="5"', f'num="5" wrong="{wrong}"')
+    else:
+        import json as _json
+        dd = _json.loads(good)
+        dd['wrong'] = {'eClass': f'{pk.nsURI}#//M', '$ref': wrong if wrong == '/' else '/'}
+        bad = _json.dumps(dd)
+    if bad == good:
+        return
+    with open(pb, 'w') as fh:
+        fh.write(bad)
+    r2 = rs()
+    try:
+        A = r2.get_resource(URI(pa))
+    except Exception:
+        ctx.count('cross/setup-raised'); return
+
+    def state():
+        out = []
+        for o in [A.contents[0]] + list(A.contents[0].eAllContents()):
+            row = [o.name]
+            for f in N.eAllStructuralFeatures():
+                v = o.eGet(f)
+                if f.is_attribute:
+                    row.append((f.name, v))
+                else:
+                    vs = list(v) if f.many else ([v] if v is not None else [])
+                    row.append((f.name, [getattr(x, '_proxy_path', None) or (getattr(x, 'name', None), id(x)) for x in vs]))
+            out.append(row)
+        return out
+    before_state, before_keys = state(), sorted(r2.resources)
+    raised = None
+    try:
+        r2.get_resource(URI(pb))
+    except Exception as e:
+        raised = type(e).__name__
+    ctx.evaluations += 1
+    ctx.count(f'cross/{fmt}/' + ('raised' if raised else 'loaded'))
+    if not raised:
+        return
+    ctx.nontriv(('cross', h, fmt))
+    rep = {'case': h, 'cross': True, 'format': fmt, 'references': kinds, 'document': bad[:2000]}
+    if sorted(r2.resources) != before_keys:
+        ctx.violate({'clause': 'trace-after-failure', 'format': fmt, 'what': 'resources'},
+                    f'after a failed load ({raised}) the resource set holds {sorted(os.path.basename(k) for k in r2.resources)}', rep)
+        return
+    try:
+        after_state = state()
+    except Exception as e:
+        ctx.violate({'clause': 'other-resource-changed', 'format': fmt},
+                    f'after a failed load ({raised}) of b.{fmt}, reading the previously loaded a.{fmt} raises {type(e).__name__}: {str(e)[:100]}', rep)
+        return
+    if after_state != before_state:
+        diff = next((a, b) for a, b in zip(before_state, after_state) if a != b)
+        ctx.violate({'clause': 'other-resource-changed', 'format': fmt},
+                    f'after a failed load ({raised}) of b.{fmt} an object of the previously loaded a.{fmt} changed: {diff[0]} -> {diff[1]}', rep)
+
+
 def run_case(ctx, h, tmp, nprefix, ncorr):
     rng = common.sub_rng(ctx.seed, 'C18', h)
     fmt = 'xmi' if h % 2 == 0 else 'json'
@@ -145,6 +347,8 @@ def run_case(ctx, h, tmp, nprefix, ncorr):
         attempt(ctx, doc[:c], pk, tmp, fmt, 'prefix', h)
     for bad in corruptions(rng, doc, fmt, ncorr):
         attempt(ctx, bad, pk, tmp, fmt, 'corrupted', h)
+    for bad in cycle_requests(rng, doc, fmt, pk, 2):
+        attempt(ctx, bad, pk, tmp, fmt, 'containment-cycle-request', h)
     if h < 2:
         ctx.sample({'case': h, 'format': fmt, 'bytes': len(doc), 'document_head': doc.decode('utf-8')[:300]})
 
@@ -155,7 +359,7 @@ def run(ctx):
     nprefix = 400 if ctx.quick() else 2000
     ncorr = 120 if ctx.quick() else 600
     ctx.rule = (f'{n} valid XMI/JSON documents saved from generated models; for each: every byte prefix (sampled to {nprefix} above '
-                f'that size) and {ncorr} single-token corruptions (reversed names, removed/duplicated tokens, a word of a blank-separated reference list given twice, broken references, '
+                f'that size) and {ncorr} single-token corruptions (reversed names, removed/duplicated tokens, a word of a blank-separated reference list given twice, broken references, containment features made to name an ancestor, a document referring through bidirectional references into an already loaded resource and failing afterwards (that resource must not change), '
                 'structural characters), each asked from a resource set that already holds another resource, under a 10 s watchdog; '
                 'oracle: raises or yields a model satisfying C01-C03; after a failure resources / metamodel registry / global '
                 'registry are exactly as before; a second get_resource returns the same resource. non-trivial & distinct = '
@@ -164,6 +368,8 @@ def run(ctx):
     try:
         for h in range(n):
             run_case(ctx, h, tmp, nprefix, ncorr)
+            cross_case(ctx, h, tmp, 'xmi' if h % 2 == 0 else 'json')
+            cross_case(ctx, h, tmp, 'json' if h % 2 == 0 else 'xmi')
     finally:
         shutil.rmtree(tmp, ignore_errors=True)
     ctx.assumptions += ['termination of lxml / json parsing itself is trusted (watchdog only)',
